@@ -174,7 +174,11 @@ impl StateMachine<'_> {
         let mut handled_line = false;
         let (_mode_info, file_event) =
             parse_diff_header_line(&self.line, self.source == Source::GitDiff);
-        let name = get_repeated_file_path_from_diff_line(&self.diff_line).unwrap_or_default();
+        let mut name = get_repeated_file_path_from_diff_line(&self.diff_line).unwrap_or_default();
+        // An empty added or removed file has no ---/+++ lines: this is where its name is set.
+        if !name.is_empty() {
+            utils::path::relativize_path_maybe(&mut name, self.config);
+        }
         match file_event {
             FileEvent::Removed => {
                 self.minus_file = name;
